@@ -1,0 +1,11 @@
+//go:build !verif
+
+// Package verifhook provides interleaving points for the external verification
+// harness. Without the build tag "verif" every point is an empty function.
+package verifhook
+
+// Enabled reports whether hooks are compiled in.
+const Enabled = false
+
+// At does nothing without the verif build tag.
+func At(point string) {}
